@@ -62,6 +62,10 @@ def Proc.Valid : Proc → Prop
   | .connUpdate p => p.valid = true
   | .phy _ _ => True
 
+/-- a Connection Update whose parameters `parse_timing_parameters_from_connection_update_request`
+    refuses: the link ends at the instant -/
+def Proc.Refused (pr : Proc) : Prop := ∃ p, pr = .connUpdate p ∧ p.valid = false
+
 /-- a procedure was accepted by `handle_ll_control_data` and the next event is not planned yet -/
 structure AcceptInv (s : LL) (pr : Proc) (I : Nat) : Prop where
   up   : s.up = true
@@ -94,6 +98,7 @@ inductive Outcome (pr : Proc) (I : Nat) (s : LL) (i : In) (s' : LL) : Prop where
   | ended (hup : s'.up = false) (hi : i = .lost) (hto : s.timeout * 10000 ≤ s.sinceLast)
   | applied (hup : s'.up = true) (hp : s'.pending = none) (hc : s'.counter = I) (hl : s'.lastLat = 1)
       (hpar : params s' = carried (params s) pr)
+  | refused (hup : s'.up = false) (hc : s'.counter = I) (hr : pr.Refused)
   | waiting (inv : PendInv s' pr I) (hne : s'.counter ≠ I) (hpar : params s' = params s)
       (hm : room s' + evCost i ≤ room s)
 
@@ -132,6 +137,16 @@ theorem finishEvent_at_instant (s : LL) (pr : Proc) (hp : s.pending = some pr)
   have h2 := (applyProc_valid s pr hv).1
   simp [finishEvent, handlePending, hp, he, h2]
 
+theorem applyProc_refused (s : LL) (pr : Proc) (hr : pr.Refused) : (applyProc s pr).2 = true := by
+  obtain ⟨p, rfl, hp⟩ := hr
+  simp [applyProc, hp]
+
+theorem finishEvent_at_instant_refused (s : LL) (pr : Proc) (hp : s.pending = some pr)
+    (he : s.instant = s.counter) (hr : pr.Refused) :
+    finishEvent s = forceDisconnect { (applyProc s pr).1 with pending := none, lastLat := 1 } := by
+  have h2 := applyProc_refused s pr hr
+  simp [finishEvent, handlePending, hp, he, h2]
+
 /-! ### planning the next event while a procedure is pending -/
 
 theorem planAdvance_eq (s : LL) (listen : Bool) (pr : Proc) (hp : s.pending = some pr)
@@ -158,13 +173,15 @@ theorem planAdvance_pos (s : LL) (listen : Bool) (pr : Proc) (hp : s.pending = s
 
 /-- the common part of `end_event` and `timeout`: the planned event was moved `k` events ahead
     (`k ≤ dist`), then `handle_pending_ll_control` runs: either the instant is reached and the
-    procedure takes effect, or nothing happens -/
-theorem advance_step (s s1 : LL) (pr : Proc) (I k : Nat) (hv : pr.Valid)
+    procedure takes effect (valid parameters) or the link ends (refused parameters), or nothing
+    happens -/
+theorem advance_step (s s1 : LL) (pr : Proc) (I k : Nat) (hv : pr.Valid ∨ pr.Refused)
     (hup : s1.up = true) (hp : s1.pending = some pr) (hin : s1.instant = I)
     (hc : s.counter < W) (hI : I < W)
     (hcnt : s1.counter = (s.counter + k) % W) (hk2 : k ≤ sub16 I s.counter) :
     (((finishEvent s1).up = true ∧ (finishEvent s1).pending = none ∧ (finishEvent s1).counter = I
         ∧ (finishEvent s1).lastLat = 1 ∧ params (finishEvent s1) = carried (params s1) pr))
+    ∨ ((finishEvent s1).up = false ∧ (finishEvent s1).counter = I ∧ pr.Refused)
     ∨ (finishEvent s1 = s1 ∧ s1.counter ≠ I ∧ s1.counter < W ∧ 0 < dist s1
         ∧ dist s1 + k = sub16 I s.counter) := by
   have hd1 : dist s1 = sub16 I s.counter - k := by
@@ -173,19 +190,25 @@ theorem advance_step (s s1 : LL) (pr : Proc) (I k : Nat) (hv : pr.Valid)
   have hc1 : s1.counter < W := by rw [hcnt]; exact mod_W_lt _
   have hi1 : s1.instant < W := by rw [hin]; exact hI
   by_cases hz : dist s1 = 0
-  · left
-    have he : s1.instant = s1.counter := (sub16_eq_zero s1.instant s1.counter hc1 hi1).mp hz
-    rw [finishEvent_at_instant s1 pr hp he hv]
+  · have he : s1.instant = s1.counter := (sub16_eq_zero s1.instant s1.counter hc1 hi1).mp hz
     have hf := applyProc_frame s1 pr
-    have hpar := (applyProc_valid s1 pr hv).2
-    refine ⟨?_, rfl, ?_, rfl, ?_⟩
-    · show (applyProc s1 pr).1.up = true
-      rw [hf.1]; exact hup
-    · show (applyProc s1 pr).1.counter = I
+    rcases hv with hv | hr
+    · left
+      rw [finishEvent_at_instant s1 pr hp he hv]
+      have hpar := (applyProc_valid s1 pr hv).2
+      refine ⟨?_, rfl, ?_, rfl, ?_⟩
+      · show (applyProc s1 pr).1.up = true
+        rw [hf.1]; exact hup
+      · show (applyProc s1 pr).1.counter = I
+        rw [hf.2, ← he]; exact hin
+      · show params (applyProc s1 pr).1 = carried (params s1) pr
+        exact hpar
+    · right; left
+      rw [finishEvent_at_instant_refused s1 pr hp he hr]
+      refine ⟨rfl, ?_, hr⟩
+      show (applyProc s1 pr).1.counter = I
       rw [hf.2, ← he]; exact hin
-    · show params (applyProc s1 pr).1 = carried (params s1) pr
-      exact hpar
-  · right
+  · right; right
     have hne : s1.instant ≠ s1.counter := fun he =>
       hz ((sub16_eq_zero s1.instant s1.counter hc1 hi1).mpr he)
     rw [finishEvent_not_at_instant s1 pr hp hne]
